@@ -82,7 +82,7 @@ CLAIMS = {
     "C04": dict(
         technique="Coq: executable small-step model of the bind/propagate protocol with both mutex disciplines; refutation theorem (explicit interleaving) for the code as found; sound exhaustive exploration (checked closed state sets, Lib/Explore.v, soundness lemma proved) of ALL interleavings of four scenarios for the repaired protocol, and a theorem that the same exploration fails for the protocol as found; real-thread directed replay of the witness",
         text="The model refutes 'every bound descendant is cancelled' for the two-mutex protocol with an explicit schedule (theorem), which the check replays on the real library with a widened race window "
-             "(defect found, repaired by fix: commit 27dc20e). For the repaired protocol every interleaving of the listed small configurations (up to 4 contexts, 3 threads) is shown inside Coq (theorem cancel_reaches_descendants_all_interleavings over every reachable configuration, not a schedule prefix) to keep: "
+             "(defect found, repaired by fix: commit 27dc20e). A second defect was found while writing the invariant for a general proof: a context bound beneath a parent-less context registered itself and then copied the parent's flag with load + store, overwriting a concurrently propagated cancellation (theorem cancel_misses_child_of_parentless_context_refuted, replayed on real threads with injected delays: ctx-root; repaired by fix: commit d826452). For the repaired protocol every interleaving of the six listed small configurations (up to 4 contexts, 3 threads, incl. contexts bound beneath a parent-less context) is shown inside Coq (theorem cancel_reaches_descendants_all_interleavings over every reachable configuration, not a schedule prefix) to keep: "
              "once quiescent, all bound descendants of a cancelled context are cancelled and nothing else is. Real-thread oracles: random context trees with concurrent cancels (ctx-rand); 2-6 threads cancelling one context at once (ctx-race: exactly one caller gets true, sticky until reset(), cancellable again after it, sibling / isolated / parent contexts untouched).",
         note="PARTIAL: the general (unbounded) theorem for the repaired protocol, one-winner and no-spurious for arbitrary trees are not yet proved; the model is hand-written at lock-block granularity and is tied "
              "to the code only through the directed replay and random real-thread runs, not step by step. SC only.",
